@@ -444,6 +444,17 @@ func (eng *Engine) verifyFunc(fn *ssa.Function, con *Contract, mode string) *VC 
 		fr.params = append(fr.params, c)
 		fr.assumeTypeFacts("true", p.Type(), c, &fr.entry)
 		fr.notePointer("true", c, p.Type())
+		// elements of a []any parameter that hold a *big.Int constant: the pointers inside values the caller
+		// passes refer to objects that exist at entry (quantified form of the interface type fact)
+		if sl, ok := types.Unalias(p.Type()).Underlying().(*types.Slice); ok && eng.bigPtr != nil {
+			if it, ok := sl.Elem().Underlying().(*types.Interface); ok && it.NumMethods() == 0 && len(c) == 4 {
+				row := vc.rowOf(&fr.entry, SInt, c[0])
+				tag := app("select", row, vc.atTerm(2, 0, c[1], "j"))
+				ref := app("select", row, vc.atTerm(2, 1, c[1], "j"))
+				un := eng.unbox(vc, eng.bigPtr, ref)
+				vc.assert("(forall ((j Int)) (! (=> (and (<= 0 j) (< j " + c[2] + ") (= " + tag + " " + sInt(int64(eng.tagOf(eng.bigPtr))) + ")) (< " + un[0] + " brk0)) :pattern (" + tag + ")))")
+			}
+		}
 	}
 	for _, fv := range fn.FreeVars {
 		c := fr.freshVal("fv_"+fv.Name(), fv.Type())
